@@ -4,6 +4,8 @@ EXTENDS Throttle
 MCTh4   == [x \in Callers |-> <<4, 1>>]
 MCBt2   == [x \in Callers |-> 2]
 MCBt123 == [x \in Callers |-> ((x - 1) % 3) + 1]
+MCBt1   == [x \in Callers |-> 1]
+MCBt112 == [x \in Callers |-> <<1, 1, 2>>[((x - 1) % 3) + 1]]
 \* the threshold differs from request to request (SI = 4 ticks)
 \*   V: thresholds 4, 2, 2, 1 with batches 1, 1, 2, 1        -> spacings 1, 2, 4, 4
 \*   W: thresholds 1, 4, 1/2, 2 with batches 1, 2, 1, 0      -> spacings 4, 2, (batch over threshold), (batch 0)
@@ -11,5 +13,15 @@ MCThV   == [x \in Callers |-> <<<<4, 1>>, <<2, 1>>, <<2, 1>>, <<1, 1>>>>[((x - 1
 MCBtV   == [x \in Callers |-> <<1, 1, 2, 1>>[((x - 1) % 4) + 1]]
 MCThW   == [x \in Callers |-> <<<<1, 1>>, <<4, 1>>, <<1, 2>>, <<2, 1>>>>[((x - 1) % 4) + 1]]
 MCBtW   == [x \in Callers |-> <<1, 2, 1, 0>>[((x - 1) % 4) + 1]]
-view == <<last, now, seq, reqs, frozen, pc, cur, inv, loaded, est>>
+\* the rule is replaced under traffic (first rule: SI, MaxQ, threshold factor 1); every reload changes EXACTLY ONE parameter
+\* of the rule in force, or none
+MCNoReload == << >>
+P(s, q, tmn, tmd) == [si |-> s, mq |-> q, tm |-> <<tmn, tmd>>]
+MCRlSIup   == << P(2 * SI, MaxQ, 1, 1) >>                            \* statistic interval doubled: every spacing doubles
+MCRlSIdown == << P(SI \div 2, MaxQ, 1, 1) >>                         \* statistic interval halved: every spacing halves
+MCRlMQ     == << P(SI, 1, 1, 1) >>                                   \* queueing limit cut to 1 tick
+MCRlTM     == << P(SI, MaxQ, 1, 2) >>                                \* threshold halved: every spacing doubles
+MCRlSame   == << P(SI, MaxQ, 1, 1), P(2 * SI, MaxQ, 1, 1) >>         \* a reload that changes nothing, then the interval
+MCRlBack   == << P(2 * SI, MaxQ, 1, 1), P(SI, MaxQ, 1, 1) >>         \* the interval doubled and back
+view == <<last, now, seq, reqs, frozen, ep, rule, ck, ckp, pc, cur, inv, loaded, est, ge, rp, k, cp, n>>
 =============================================================================
